@@ -268,6 +268,20 @@ def run_case(case):
                 if kind == "bytes" and not has_framing and (b"Content-Length", b"3") not in added:
                     v("content-length-value", repr(added), {})
                 sigs.add(f"content:{kind}:{has_framing}:{b'host' in lower}")
+            # ... and the list as it reaches the next hop: directly, and through a forwarding proxy that has header
+            # fields of its own (one of them colliding with a request field)
+            if i % 35 == 0 and u.scheme == b"http":
+                safe = [x for x in want_h if x[0].lower() in (b"accept", b"x-a", b"cookie", b"x-b")]
+                for route in ("direct", "forward"):
+                    cnt["law_headers_wire"] = cnt.get("law_headers_wire", 0) + 1
+                    got_h = wire_headers(u, safe, route)
+                    mine = [x for x in got_h if x[0].lower() in (b"accept", b"x-a", b"cookie", b"x-b")] if isinstance(got_h, list) else got_h
+                    want_w = list(safe)
+                    if route == "forward" and not any(k.lower() == b"x-a" for k, _ in safe):
+                        want_w = [(b"X-A", b"from-proxy")] + want_w  # the proxy's own field, not overridden by the request
+                    if mine != want_w:
+                        v(f"headers-not-preserved-on-the-wire:{route}", f"{mine!r} != {want_w!r}", {"headers": repr(safe)})
+                    sigs.add(f"wire:{route}:{len(safe)}:{len(set(k.lower() for k, _ in safe))}")
     # dedupe by key
     seen = set()
     out = []
@@ -276,6 +290,34 @@ def run_case(case):
             seen.add(x["key"])
             out.append(x)
     return {"viol": out, "counters": cnt, "sigs": sorted(sigs), "sample": sample}
+
+
+def wire_headers(u, headers, route):
+    """The header list the next hop parses for one GET with `headers` (sync flavour, simulated network)."""
+    from .. import simnet, endpoints
+    from ..world import mk_pool
+    net = simnet.Net()
+    net.log_events = False
+    host = u.host.decode("ascii")
+    port = u.port or 80
+    origin = endpoints.Origin(net, host, port, register=route == "direct")
+    if route == "forward":
+        px = endpoints.HTTPProxy(net, "proxy.test", 3128, origins=[origin])
+        pool = mk_pool("sync", net, proxy={"url": "http://proxy.test:3128", "headers": [(b"X-Proxy", b"p"), (b"X-A", b"from-proxy")]})
+    else:
+        pool = mk_pool("sync", net)
+    from ..world import run_flavor
+
+    async def main():
+        try:
+            pool.request("GET", u, headers=list(headers))
+            reqs = px.forwards if route == "forward" else origin.requests
+            return list(reqs[-1].headers) if reqs else "no request on the wire"
+        except Exception as exc:  # noqa
+            return f"raised {exc!r}"
+        finally:
+            pool.close()
+    return run_flavor("sync", net, main)
 
 
 def plan(tier, seed):
